@@ -17,6 +17,7 @@ import (
 	"sort"
 	"strings"
 
+	v3 "github.com/projectcalico/api/pkg/apis/projectcalico/v3"
 	"github.com/sirupsen/logrus"
 	googleproto "google.golang.org/protobuf/proto"
 
@@ -755,7 +756,7 @@ func runFresh(u []*ukey, cur map[string]uint64, order []string, routeSource stri
 	return abstractAll(g.msgs), ""
 }
 
-func genEvents(r *rng, u []*ukey, n int, scripted bool) []event {
+func genEvents(r *rng, u []*ukey, n int, scripted bool, lateLabels bool) []event {
 	var evs []event
 	cur := map[string]uint64{}
 	seen := map[string][]uint64{}
@@ -871,6 +872,42 @@ func genEvents(r *rng, u []*ukey, n int, scripted bool) []event {
 		if r.chance(50) {
 			n = len(evs) // ... except for half of the scripted cases, which end here (minimal shape)
 		}
+	} else if lateLabels {
+		// profile labels that arrive late: an endpoint names profile P while P's labels are not in the datastore, is
+		// updated (same profiles), and only then P's labels-to-apply arrive; policies select on the inherited labels.
+		evs = append(evs, event{op: "sync"})
+		synced = true
+		syncAt = -1
+		prof := pick(r, []string{"prof-1", "prof-2", "prof-3"})
+		hasProf := func(v any) bool {
+			for _, p := range profilesOf(v) {
+				if p == prof {
+					return true
+				}
+			}
+			return false
+		}
+		inheritSel := func(v any) bool {
+			s := v.(*model.Policy).Selector
+			return s == "has(tag-1)" || s == "profile == 'prof-1'" || s == "tag-1 == 'foobar'" || s == "a == 'a'"
+		}
+		for _, p := range []string{"pol-1", "pol-2", "pol-3"} {
+			set(byName[p], findVariant(byName[p], inheritSel), "set")
+		}
+		set(byName["Tdefault"], uint64(r.intn(12)), "set")
+		w := byName[pick(r, []string{"w1", "w2", "w3", "h1"})]
+		set(w, findVariant(w, hasProf), "set")
+		if r.chance(60) {
+			evs = append(evs, event{op: "flush"})
+		}
+		set(w, findVariant(w, hasProf), "set")
+		if r.chance(60) {
+			evs = append(evs, event{op: "flush"})
+		}
+		lk := byName["L"+prof]
+		set(lk, findVariant(lk, func(v any) bool { return len(v.(*v3.Profile).Spec.LabelsToApply) > 0 }), "set")
+		evs = append(evs, event{op: "flush"})
+		n = len(evs) + r.intn(25)
 	} else {
 		// populate prefix: most keys get a value, in random order
 		perm := r.perm(len(u))
@@ -942,7 +979,7 @@ func runCase(seed uint64, idx int, u []*ukey, st *stats) map[string]any {
 	if r.chance(30) {
 		n = 30 + r.intn(40)
 	}
-	evs := genEvents(r, u, n, scripted)
+	evs := genEvents(r, u, n, scripted, idx%6 == 2)
 	line, _ := evalHistory(seed, idx, u, st, evs, routeSource, scripted, r.next(), true)
 	return line
 }
@@ -960,7 +997,7 @@ func shrinkCase(seed uint64, idx int, u []*ukey) map[string]any {
 	if r.chance(30) {
 		n = 30 + r.intn(40)
 	}
-	evs := genEvents(r, u, n, scripted)
+	evs := genEvents(r, u, n, scripted, idx%6 == 2)
 	shufSeed := r.next()
 	st := &stats{}
 	line, evs := evalHistory(seed, idx, u, st, evs, routeSource, scripted, shufSeed, true)
@@ -1018,6 +1055,9 @@ func evalHistory(seed uint64, idx int, u []*ukey, st *stats, evs []event, routeS
 	tags := map[string]bool{"routesource:" + routeSource: true}
 	if scripted {
 		tags["scripted:match-flap-then-update"] = true
+	}
+	if idx%6 == 2 {
+		tags["scripted:profile-labels-late"] = true
 	}
 	var ops []string
 	var hpanic string
